@@ -24,13 +24,15 @@ ASSUMPTIONS = ['raw mixture count observed through a harness-side wrapper of mod
                'crashes of run() are left to C08']
 BUDGET = {'quick': 1300, 'thorough': 25000}
 CORPUS = 'pipeline'
-WEIGHTS = {'merge_chain': 6, 'split_candidate': 6, 'double_split': 3, 'tie_split': 5, 'limit_crossing': 3, 'layered': 2, 'ref_window': 1}
+WEIGHTS = {'excl_merge': 2, 'merge_chain': 6, 'split_candidate': 6, 'double_split': 3, 'tie_split': 5, 'limit_crossing': 3, 'layered': 2, 'ref_window': 1}
 
 
 @st.composite
 def strategy_(draw):
     case = draw(S.pipeline_case(WEIGHTS, vary=('sep', 'okta'), p_default_prms=0.0))
     prms = case['prms']
+    if case['cls'] == 'excl_merge':
+        return case
     if case['cls'] != 'limit_crossing' and draw(st.integers(0, 9)) < 8:
         prms['BASE_LVL_HEIGHT_PERC'] = draw(st.sampled_from([0, 5, 5, 10, 50, 90, 100]))
         prms['BASE_LVL_LOOKBACK_PERC'] = draw(st.sampled_from([100, 100, 100, 75, 50, 50, 30, 30, 20, 10, 5, 2]))
